@@ -65,6 +65,26 @@ MinTtlSeq(s, acc) ==                       \* the three loops of fn validity
 MinTtl(m, acc) == MinTtlSeq(m.ar, MinTtlSeq(m.ns, MinTtlSeq(m.an, acc)))
 
 ---------------------------------------------------------------------------
+(* cache::Config as documented (doc comments of the set_* methods and the  *)
+(* RFC 2308 / 8767 / 9520 figures they cite), independent of the constants *)
+(* in the code: defaults, and the [min, max] every setter clamps to.       *)
+(* Durations in seconds.                                                   *)
+DocDefaults == [maxEntries |-> 1000, maxValidity |-> 604800, transportFailure |-> 30,
+                miscError |-> 30, maxNxdomain |-> 3600, maxNodata |-> 3600,
+                maxDelegation |-> 1000000, cacheTruncated |-> FALSE]
+DocLimits == [maxEntries       |-> [min |-> 1,  max |-> 1000000000],
+              maxValidity      |-> [min |-> 60, max |-> 6048000],
+              transportFailure |-> [min |-> 1,  max |-> 300],
+              miscError        |-> [min |-> 1,  max |-> 300],
+              maxNxdomain      |-> [min |-> 60, max |-> 86400],
+              maxNodata        |-> [min |-> 60, max |-> 86400],
+              maxDelegation    |-> [min |-> 60, max |-> 1000000000]]
+Clamp(f, v) == IF v < DocLimits[f].min THEN DocLimits[f].min
+               ELSE IF v > DocLimits[f].max THEN DocLimits[f].max ELSE v
+(* Config::new() followed by one set_<f>(v) *)
+ConfigAfterSet(f, v) == [DocDefaults EXCEPT ![f] = Clamp(f, v)]
+
+---------------------------------------------------------------------------
 (* fn classify_no_error                                                    *)
 Classify(m) ==
   LET qt == m.qd[1].t
